@@ -1144,6 +1144,13 @@ impl<'r> Gen<'r> {
                 items.push(Item::Cond { ifndef, chain, els });
             } else if k < 30 + cw + mw {
                 match self.r.below(10) {
+                    0 if !self.known.is_empty() && self.r.chance(1, 2) => {
+                        // the same definition once more (a header included twice, a copy in another file)
+                        let m = self.r.pick(&self.known).clone();
+                        self.known.retain(|x| x.name != m.name);
+                        self.known.push(m.clone());
+                        items.push(Item::Define(m));
+                    }
                     0..=3 => {
                         let m = self.macro_def();
                         items.push(Item::Define(m));
